@@ -19,6 +19,8 @@ from ..common import short, strip_casts, emptiness, strip_view
 from .. import pathq, oblig, callgraph
 from . import tables
 
+from ..report import norm_key
+
 EXPLANATION = __doc__
 NOT_DECIDED = "the value-level round-trip law over all strings; exact language accepted by the regex crate and by std's address parsers (trusted)"
 ASSUMPTIONS = ["regex crate: an unconditional capture group participates in every match", "std Ipv4Addr/Ipv6Addr/u16 FromStr are total and strict (u16 accepts a leading '+': excluded by the digits-only port group)"]
@@ -234,8 +236,9 @@ def run(ctx, f, rep):
             total += 1
             key = "R19.1|%s|%s" % (path, keys[k])
             what = "%s in %s" % (s["name"], path)
-            if key in ALLOW:
-                rep.ok("R19.1", key, "%s: allow-listed: %s" % (what, ALLOW[key]), s["loc"])
+            akey = next((k_ for k_ in ALLOW if norm_key(k_) == norm_key(key)), None)
+            if akey is not None:
+                rep.ok("R19.1", key, "%s: allow-listed: %s" % (what, ALLOW[akey]), s["loc"])
             elif r["paths"] == 0:
                 rep.bad("R19.1", key, "%s: site not reached by any enumerated path" % what, s["loc"])
             elif r["fail"] is not None:
@@ -294,7 +297,7 @@ def run(ctx, f, rep):
                     g, rname = group_of(ev.args[0])
                     rep.check(g == 2 and rname == hp_name, "R19.2", "R19.2|port-parse",
                               "the port text parsed as u16 is capture group 2 of the host:port pattern (group %s of %s); a failed parse is an error value (totality: R19.1)" % (g, rname), b.loc(ev.bb))
-                elif tt is not None and tt.endswith("host::Host"):
+                elif tt is not None and tt.split("::")[-1] == "Host":
                     nhost += 1
                     g, rname = group_of(ev.args[0])
                     rep.check(g == 1 and rname == hp_name, "R19.2", "R19.2|host-parse", "the host text is capture group 1 of the host:port pattern (group %s of %s)" % (g, rname), b.loc(ev.bb))
@@ -303,9 +306,9 @@ def run(ctx, f, rep):
         rep.ok("R19.2", "R19.2|port-type", "the port is parsed as u16 (0..=65535)", b.loc())
     tables.check_name_table(f, rep, "R19.2", "Transport", ["Tcp", "Ipc"], want_reader=True, names={"Tcp": "tcp", "Ipc": "ipc"})
     # ---- R19.3 Display
-    disp = [b for b in f.bodies if b.j.get("name") == "fmt" and (b.j.get("impl_trait") or "").endswith("fmt::Display") and (b.j.get("impl_self") or "").endswith("endpoint::Endpoint")]
+    disp = [b for b in f.bodies if b.j.get("name") == "fmt" and (b.j.get("impl_trait") or "").endswith("fmt::Display") and (b.j.get("impl_self") or "").split("::")[-1] == "Endpoint"]
     rep.floor("R19.3", "Display for Endpoint", len(disp), 1)
-    hadt = tables.adt_by_suffix(f, "endpoint::host::Host")
+    hadt = tables.adt_by_suffix(f, "host::Host")
     hnames = [v["name"] for v in hadt["variants"]] if hadt else []
     for b in disp:
         seen = {}
@@ -340,7 +343,7 @@ def run(ctx, f, rep):
                   "`tcp://host:port` is written for every other host kind (decision: %s)" % seen.get("tcp://{}:{}"), b.loc())
         rep.check(any(t_.startswith("ipc://{}") for t_ in seen), "R19.3", "R19.3|ipc-form", "`ipc://path` is written for IPC endpoints: %s" % sorted(seen), b.loc())
     # host parser order
-    hp_ = [b for b in f.bodies if b.j.get("name") == "try_from" and (b.j.get("impl_self") or "").endswith("host::Host") and "String" in b.path]
+    hp_ = [b for b in f.bodies if b.j.get("name") == "try_from" and (b.j.get("impl_self") or "").split("::")[-1] == "Host" and "String" in b.path]
     rep.floor("R19.3", "Host::try_from(String)", len(hp_), 1)
     for b in hp_:
         ok4 = ok6 = okd = False
